@@ -41,7 +41,8 @@ DEV_AMTS = {"BondAmts": "BondDev", "AddAmts": "AddDev"}
 OL_MC = [
     dict(name="mcdev", tiers=["dev"], consts=ol_consts(O2, B2, ["v1"], 2, 2, 1, 1), overrides=DEV_AMTS, timeout=300),
     dict(name="mc2", tiers=["quick"], consts=ol_consts(O2, B2, ["v1"], 2, 2, 2, 1), overrides=QUICK_AMTS, timeout=600),
-    dict(name="mc2deep", tiers=["thorough"], consts=ol_consts(O2, B2, V2, 3, 3, 3, 2), overrides=QUICK_AMTS, timeout=1500),
+    dict(name="mc2deep", tiers=["thorough"], consts=ol_consts(O2, B2, V2, 3, 3, 2, 2), overrides=QUICK_AMTS, timeout=1500),
+    dict(name="mc2full", tiers=["thorough"], consts=ol_consts(O2, B2, V2, 2, 2, 2, 1), overrides=FULL_AMTS, timeout=1500),
     dict(name="mc2rew", tiers=["thorough"], consts=ol_consts(O2, B2, ["v1"], 2, 2, 2, 1, rewards=2, slashop=False),
          overrides=QUICK_AMTS, timeout=1500),
     dict(name="mc3", tiers=["thorough"], consts=ol_consts(O3, B3, ["v1"], 3, 2, 1, 1, slashop=False), overrides=DEV_AMTS, timeout=1500),
@@ -60,8 +61,11 @@ OL_GEN = [
     # staking rewards: Reward / WithdrawReward
     dict(name="gen2rew", tiers=["thorough"], consts=ol_consts(O2, B2, ["v1"], 2, 2, 1, 1, rewards=1, slashop=False), overrides=QUICK_AMTS,
          harness=[ol_harness("eth", O2, B2)], shards=16, rej_sample=2, timeout=1500),
-    # three oracles competing for three bridger and two external addresses
-    dict(name="gen3", tiers=["thorough"], consts=ol_consts(O3, B3, ["v1"], 3, 2, 1, 1, slashop=False), overrides=DEV_AMTS,
+    # three oracles competing for three bridger and two external addresses: full life cycle, every operation in every state
+    dict(name="gen3", tiers=["thorough"], consts=ol_consts(O3, B3, ["v1"], 3, 2, 0, 1, slashop=False), overrides=DEV_AMTS,
+         harness=[ol_harness("eth", O3, B3)], shards=16, rej_sample=0, timeout=1500),
+    # ... and end-block slashing among three (all subsets of confirmers)
+    dict(name="gen3age", tiers=["thorough"], consts=ol_consts(O3, B3, ["v1"], 3, 1, 1, 1, slashop=False), overrides=DEV_AMTS,
          harness=[ol_harness("eth", O3, B3)], shards=16, rej_sample=1, timeout=1500),
 ]
 
